@@ -139,8 +139,10 @@ Definition env_sub (e : cobj) (name : str) : cobj :=
 Inductive item := IOpt (k : str) (v : Z) | ICfg (c : cobj).
 Inductive argvt := ArgvT (a_items : list item) (a_sub : option (str * argvt)).
 
-Inductive entry := EArgs (a : argvt) | EObject (c : cobj) | EString (c : cobj).
-Record input := { i_env : option cobj;    (* Some e: parser built with default_env=True, environment e *)
+(* EEnv m : parser.parse_env(m) with an explicit environment mapping m; i_env is then what os.environ
+   holds at that moment (Some [] = no variable of this parser's prefix) *)
+Inductive entry := EArgs (a : argvt) | EObject (c : cobj) | EString (c : cobj) | EEnv (m : cobj).
+Record input := { i_env : option cobj;    (* Some e: environment parsing is on, os.environ = e *)
                   i_entry : entry }.
 
 (* ---------- ArgumentParser.get_defaults (no default config files) ---------- *)
@@ -181,9 +183,12 @@ Definition dels (v : node) (keys : list str) (c : ns) : ns :=
      subcommands (`if subcommand not in action._name_parser_map`).
    fx_cfg = true : after fixes/C17-cfg-naming-other-subcommand-drops-settings.patch — the sections of
      the other subcommands are only removed when `fail_no_subcommand or require_single`, i.e. not
-     while ActionConfigFile.apply_config loads a `--cfg` value on its own. *)
-Record variant := { fx_falsy : bool; fx_cfg : bool }.
-Definition orig : variant := {| fx_falsy := false; fx_cfg := false |}.
+     while ActionConfigFile.apply_config loads a `--cfg` value on its own.
+   fx_envmap = true : after fixes/C17-env-mapping-ignored-by-handle-subcommands.patch — handle_subcommands
+     hands the environment MAPPING given to parse_env(env) on to the sub-parsers instead of letting them
+     read os.environ. *)
+Record variant := { fx_falsy : bool; fx_cfg : bool; fx_envmap : bool }.
+Definition orig : variant := {| fx_falsy := false; fx_cfg := false; fx_envmap := false |}.
 
 Section Variant.
 Variable fx : variant.
@@ -385,14 +390,16 @@ Definition parse_common (penv : parser -> cobj -> res ns) (fuel : nat) (env : op
   end.
 
 (* ---------- ArgumentParser._load_env_vars (no config variable) ---------- *)
-Definition load_env_vars (penv : parser -> cobj -> res ns) (p : parser) (e : cobj) : res ns :=
+(* penv v sp e' = action._name_parser_map[v].parse_env(env=env, ...): the sub-parser gets the SAME mapping
+   (here: its part below the prefix of v) *)
+Definition load_env_vars (penv : str -> parser -> cobj -> res ns) (p : parser) (e : cobj) : res ns :=
   let r1 : res ns :=
     if p_has p then
       match assoc (p_dest p) e with
       | Some (CStr v) =>
           match assoc v (p_choices p) with
           | Some sp =>
-              match penv sp (env_sub e v) with
+              match penv v sp (env_sub e v) with
               | Err x => Err x
               | Ok pcfg =>
                   let c1 := [(p_dest p, NStr v)] in
@@ -423,7 +430,7 @@ Definition load_env_vars (penv : parser -> cobj -> res ns) (p : parser) (e : cob
   end.
 
 (* ---------- ArgumentParser._parse_defaults_and_environ ---------- *)
-Definition defaults_and_environ (penv : parser -> cobj -> res ns) (p : parser) (env : option cobj) : res ns :=
+Definition defaults_and_environ (penv : str -> parser -> cobj -> res ns) (p : parser) (env : option cobj) : res ns :=
   match env with
   | None => Ok (get_defaults p)
   | Some e => match load_env_vars penv p e with
@@ -437,7 +444,7 @@ Fixpoint parse_env (fuel : nat) (p : parser) (e : cobj) {struct fuel} : res ns :
   match fuel with
   | O => Err OutOfFuel
   | S f =>
-    match defaults_and_environ (parse_env f) p (Some e) with
+    match defaults_and_environ (fun _ => parse_env f) p (Some e) with
     | Err x => Err x
     | Ok cfg => parse_common (parse_env f) f (Some e) true false p cfg
     end
@@ -461,7 +468,7 @@ Fixpoint parse_args (fuel : nat) (env : option cobj) (skipval : bool) (p : parse
   | O => Err OutOfFuel
   | S f =>
     let penv := parse_env f in
-    match defaults_and_environ penv p env with
+    match defaults_and_environ (fun _ => penv) p env with
     | Err x => Err x
     | Ok cfg0 =>
       (* if namespace: cfg = self.merge_config(namespace, cfg) *)
@@ -522,14 +529,31 @@ Definition parse_cfg (fuel : nat) (env : option cobj) (p : parser) (c : cobj) : 
   match fuel with
   | O => Err OutOfFuel
   | S f =>
-    match defaults_and_environ (parse_env f) p env with
+    match defaults_and_environ (fun _ => parse_env f) p env with
     | Err x => Err x
     | Ok base => parse_common (parse_env f) f env false true p (merge (to_ns c) base)
     end
   end.
 
+(* ---------- ArgumentParser.parse_env(env = mapping) ----------
+   _parse_defaults_and_environ reads the MAPPING m (and hands it to the sub-parser of the subcommand it
+   names: load_env_vars), but _parse_common -> handle_subcommands calls `subparser.parse_env(defaults=...,
+   _skip_validation=True)` WITHOUT it, so those calls read os.environ (os) [fx_envmap: the mapping].
+   With m = os this is parse_env above.  Top level: skipval = false, failno = true; the calls from
+   load_env_vars: _skip_validation=True, hence fail_no_subcommand=False. *)
+Fixpoint parse_envm (fuel : nat) (skipval failno : bool) (p : parser) (m os : cobj) {struct fuel} : res ns :=
+  match fuel with
+  | O => Err OutOfFuel
+  | S f =>
+    match defaults_and_environ (fun v sp m' => parse_envm f true false sp m' (env_sub os v)) p (Some m) with
+    | Err x => Err x
+    | Ok cfg => parse_common (parse_env f) f (Some (if fx_envmap fx then m else os)) skipval failno p cfg
+    end
+  end.
+
 Definition parse (fuel : nat) (p : parser) (x : input) : res ns :=
   match i_entry x with
+  | EEnv m => parse_envm fuel false true p m (match i_env x with Some o => o | None => [] end)
   | EArgs a => parse_args fuel (i_env x) false p a None
   | EObject c => parse_cfg fuel (i_env x) p c
   | EString c => parse_cfg fuel (i_env x) p c
